@@ -131,6 +131,23 @@ class Worker:
                     "detail": jsonable(detail),
                 }
             )
+            # (a shard that is killed by the wall-clock watchdog later on - a broken tree may make everything slow - still hands
+            # over what it has found so far)
+            self.dump_partial()
+
+    def dump_partial(self) -> None:
+        out = getattr(self, "out_path", None)
+        if not out:
+            return
+        try:
+            res = self.dump()
+            res["exhaustive"] = False
+            tmp = out + ".partial"
+            with open(tmp, "w") as fid:
+                json.dump(res, fid)
+            os.replace(tmp, out)
+        except Exception:  # pylint: disable=broad-except
+            pass
 
     def mark_inconclusive(self, reason: str) -> None:
         if reason not in self.inconclusive:
@@ -173,6 +190,7 @@ def load_check(prop: str):
 def worker_main(prop: str, tier: str, seed: int, shard: int, nshards: int, out: str) -> int:
     mod = load_check(prop)
     w = Worker(prop, tier, seed, shard, nshards)
+    w.out_path = out
     cov = None
     try:
         import_icontract()
